@@ -392,12 +392,20 @@ class Hub:
                 pass
         core_device_attrs.display_name = 'c09'
 
-    def set_passwords(self, admin_empty: bool = False) -> None:
+    def set_passwords(self, admin_empty: bool = False, empty: str | None = None) -> None:
+        """`empty`: 3 characters 0/1 — the admin / normal / view-only password is empty (default: all set)."""
         from qtoggleserver.core.device import attrs as core_device_attrs
-        core_device_attrs.admin_password_hash = (
-            core_device_attrs.EMPTY_PASSWORD_HASH if admin_empty else sha256(PASSWORDS['admin']))
-        core_device_attrs.normal_password_hash = sha256(PASSWORDS['normal'])
-        core_device_attrs.viewonly_password_hash = sha256(PASSWORDS['viewonly'])
+        if empty is None:
+            empty = '100' if admin_empty else '000'
+        self.pw_empty = empty
+        for usr, e in zip(('admin', 'normal', 'viewonly'), empty):
+            setattr(core_device_attrs, f'{usr}_password_hash',
+                    core_device_attrs.EMPTY_PASSWORD_HASH if e == '1' else sha256(PASSWORDS[usr]))
+
+    def current_password(self, usr: str) -> str:
+        """The clear-text password `usr` has under the current configuration ('' when empty)."""
+        idx = {'admin': 0, 'normal': 1, 'viewonly': 2}[usr]
+        return '' if getattr(self, 'pw_empty', '000')[idx] == '1' else PASSWORDS[usr]
 
     # ---- feature configuration ----
     def set_features(self, feats: dict) -> None:
@@ -447,7 +455,10 @@ class Hub:
     # ---- requests ----
     def auth_header(self, usr: str, password: str | None = None) -> str:
         from qtoggleserver.core.api import auth as core_api_auth
-        pw = PASSWORDS.get(usr, 'x') if password is None else password
+        if password is None:
+            pw = self.current_password(usr) if usr in PASSWORDS else 'x'
+        else:
+            pw = password
         return core_api_auth.make_auth_header(core_api_auth.ORIGIN_CONSUMER, usr, sha256(pw))
 
     def pump(self) -> None:
